@@ -211,6 +211,18 @@ func runC01(c *ShardCtx) {
 			runGrammar(c, wrap(peg.Lit("q"), rules...), fam6)
 		}
 	}
+	// cross family: every construct x every flag set (see cross.go); value and consumed prefix
+	{
+		cn := 3
+		if c.Thorough() {
+			cn = 4
+		}
+		eps := []rtapi.RunOpts{{MaxExpr: 600}, {MaxExpr: 600, Entrypoint: strp("R")}}
+		if !runCross(c, &idx, &crossSpec{maxSize: cn, gens: gens16, inputs: crossInputs, opts: eps, scripts: crossPredScripts, nontrivial: nontriv,
+			cmp: core.CmpOpts{SkipLog: true, SkipNoMatch: true}}) {
+			return
+		}
+	}
 	// family 4: every single label+action decoration
 	n4 := 4
 	if c.Thorough() {
